@@ -465,7 +465,8 @@ def check(rep, args):
     for cfg in configs:
         check_config(rep, facts.program(cfg))
     cov = {
-        "explanation": "panic-edge enumeration below the sampling functions, bounded-index provenance of each index component against its own axis, "
+        "explanation": "panic-edge enumeration below the sampling functions; the index each sampler hands to the view recorded by abstract interpretation "
+                       "(sa/tex_sem.py) and each component checked against its own axis (mask / clamp / floor classes), "
                        "mask/texture construction provenance, and the relative->absolute delegation as polynomial identities",
         "evaluations": len(rep.instances),
         "distinct_nontrivial": len({i["what"] for i in rep.instances}),
